@@ -328,6 +328,10 @@ func rndSig(r *rand.Rand) absSig {
 	if r.Intn(2) == 0 {
 		s.PtsAdj = rnd33(r)
 	}
+	if (s.Cmd.Kind == "time" || s.Cmd.Kind == "insert") && s.Cmd.Spec && r.Intn(6) == 0 {
+		// pts_time + pts_adjustment lands exactly on, just below or just above the 2^33 wrap
+		s.PtsAdj = (uint64(1)<<33 - s.Cmd.Pts + uint64([]int{0, 0, 1, 8589934591}[r.Intn(4)])) % (1 << 33)
+	}
 	if r.Intn(10) == 0 {
 		s.Protocol = r.Intn(256)
 		s.EncAlg = r.Intn(64)
